@@ -21,6 +21,8 @@ struct Fixture {
     anchors: Vec<String>,
     /// abbreviated ids that name more than one object
     ambiguous: Vec<String>,
+    /// name of a branch that is at the same time a valid abbreviated object id (of another commit)
+    ref_that_is_also_a_prefix: String,
 }
 
 fn gitd(dir: &Path, secs: u64, args: &[&str]) -> String {
@@ -213,14 +215,14 @@ fn build_fixtures() -> Vec<Fixture> {
     let main = base.join("main");
     let ids = build_main(&main);
     let anchors = main_anchors(&ids);
-    out.push(Fixture { name: "main", dir: main.clone(), repo: open(&main), parents: parents_of(&main, &[&ids.commit_like_c3]), anchors: anchors.clone(), ambiguous: vec![ids.c2[..4].to_string(), ids.c3[..4].to_string()] });
+    out.push(Fixture { name: "main", dir: main.clone(), repo: open(&main), parents: parents_of(&main, &[&ids.commit_like_c3]), anchors: anchors.clone(), ambiguous: vec![ids.c2[..4].to_string(), ids.c3[..4].to_string()], ref_that_is_also_a_prefix: ids.c1[..7].to_string() });
 
     // the same repository with reachable objects in a pack and refs in packed-refs (unreachable objects stay loose)
     let packed = base.join("packed");
     scratch::copy_tree(&main, &packed).unwrap_or_else(|e| vkit::machinery!("copy fixture: {e}"));
     git::git(&packed, &["repack", "-a", "-d", "-q"]);
     git::git(&packed, &["pack-refs", "--all"]);
-    out.push(Fixture { name: "packed", dir: packed.clone(), repo: open(&packed), parents: parents_of(&packed, &[&ids.commit_like_c3]), anchors, ambiguous: vec![ids.c2[..4].to_string(), ids.c3[..4].to_string()] });
+    out.push(Fixture { name: "packed", dir: packed.clone(), repo: open(&packed), parents: parents_of(&packed, &[&ids.commit_like_c3]), anchors, ambiguous: vec![ids.c2[..4].to_string(), ids.c3[..4].to_string()], ref_that_is_also_a_prefix: ids.c1[..7].to_string() });
 
     // detached HEAD, no reflogs
     let det = base.join("detached");
@@ -239,13 +241,13 @@ fn build_fixtures() -> Vec<Fixture> {
         .map(|s| s.to_string())
         .chain([d1[..4].to_string(), d1.clone()])
         .collect();
-    out.push(Fixture { name: "detached", dir: det.clone(), repo: open(&det), parents: parents_of(&det, &[]), anchors: det_anchors, ambiguous: Vec::new() });
+    out.push(Fixture { name: "detached", dir: det.clone(), repo: open(&det), parents: parents_of(&det, &[]), anchors: det_anchors, ambiguous: Vec::new(), ref_that_is_also_a_prefix: String::new() });
 
     // unborn HEAD
     let empty = base.join("empty");
     git::init(&empty);
     let empty_anchors: Vec<String> = ["HEAD", "@", "main", "@{0}", "@{-1}", "@{u}", ":a", ":/x", "", "0000"].iter().map(|s| s.to_string()).collect();
-    out.push(Fixture { name: "empty", dir: empty.clone(), repo: open(&empty), parents: HashMap::new(), anchors: empty_anchors, ambiguous: Vec::new() });
+    out.push(Fixture { name: "empty", dir: empty.clone(), repo: open(&empty), parents: HashMap::new(), anchors: empty_anchors, ambiguous: Vec::new(), ref_that_is_also_a_prefix: String::new() });
     out
 }
 
@@ -434,7 +436,7 @@ fn evaluate_inner(fixtures: &[Fixture], c: &Case) -> Verdict {
     };
     let (got, shape) = gix_outcome(fx, &c.spec);
     let class_of = |kind: &str, gix_err: &str| -> String {
-        match diagnose(&c.spec, fx.name, kind, gix_err) {
+        match diagnose(&c.spec, fx, kind, gix_err) {
             Some(root_cause) => root_cause.to_string(),
             None => format!("{kind}/{}", feature(&c.spec)),
         }
@@ -491,7 +493,8 @@ fn reflog_group_followed_by_brace_group(spec: &str) -> bool {
 }
 
 /// Known root causes of disagreements, named so that each known finding matches exactly one of them.
-fn diagnose(spec: &str, repo: &str, kind: &str, gix_err: &str) -> Option<&'static str> {
+fn diagnose(spec: &str, fx: &Fixture, kind: &str, gix_err: &str) -> Option<&'static str> {
+    let repo = fx.name;
     let groups = spec.matches("@{").count();
     if spec.starts_with("@@") {
         return Some("at-sign-before-at-brace");
@@ -532,7 +535,13 @@ fn diagnose(spec: &str, repo: &str, kind: &str, gix_err: &str) -> Option<&'stati
     if spec.contains("..") && (spec.contains("^!") || spec.contains("^@")) && kind == "gix-resolves-what-git-rejects" {
         return Some("range-followed-by-parent-shorthand");
     }
-    if groups == 1 && kind == "gix-rejects-what-git-resolves" && gix_err.contains("Reflog entries require a ref name") {
+    // only the one name that really is an object prefix as well: the same error for any other name is a different defect
+    if groups == 1
+        && kind == "gix-rejects-what-git-resolves"
+        && gix_err.contains("Reflog entries require a ref name")
+        && !fx.ref_that_is_also_a_prefix.is_empty()
+        && spec.strip_prefix(fx.ref_that_is_also_a_prefix.as_str()).map_or(false, |rest| rest.starts_with("@{"))
+    {
         return Some("reflog-of-hex-named-ref");
     }
     let describe_like = spec.find("-g").map_or(false, |p| spec[p + 2..].bytes().take_while(u8::is_ascii_hexdigit).count() >= 4);
@@ -574,7 +583,7 @@ pub fn run(run: &'static Run) {
          bounds: every repo d<=1 over all suffixes; main d<={} over the deep suffixes{}; \
          final forms: quick = ^! ^@ ^- after every bare main anchor; thorough = all six after every bare anchor of every repo, and ^! ^@ ^- ^-2 after main anchor + one deep suffix; \
          generation rules: nothing but final forms is appended to ':/regex' anchors, '@{{..}}' suffixes only directly after the anchor, anchors git aborts on are used bare; \
-         ranges: '^a', 'a..b', 'a...b' for every ordered pair of 15 revs (quick: 10 on main, 5 on detached/empty; incl. empty, missing and ambiguous ones) plus 10 malformed range forms, on main, detached, empty{}. \
+         ranges: '^a', 'a..b', 'a...b' for every ordered pair of 15 revs (quick: 10 on main, 5 on detached/empty; incl. empty, missing and ambiguous ones) plus 10 malformed range forms, plus hex-prefix/describe-name x ref@{{..}} ranges in both orders (quick 3x4, thorough 8x7) and '^ref@{{..}}', on main, detached, empty{}. \
          Non-trivial = git resolves the spec.",
         fixtures[0].anchors,
         SUFFIX_CORE,
@@ -671,6 +680,29 @@ pub fn run(run: &'static Run) {
             }
             for s in ["..", "...", "....", "HEAD..main..side", "^HEAD..main", "^^HEAD", "HEAD^!..main", "HEAD..main^!", "HEAD^@..main", "main..side^-"] {
                 range.push(Case { repo, spec: s.to_string() });
+            }
+        }
+    }
+
+    {
+        // a hex prefix (or describe name) on one side, a ref with an `@{...}` group on the other, both orders
+        let m = &fixtures[0];
+        let hexish: Vec<String> = m.anchors.iter().filter(|a| {
+            let plain_hex = a.len() >= 6 && a.len() < 40 && a.bytes().all(|b| b.is_ascii_hexdigit());
+            plain_hex || a.starts_with("anything-g")
+        }).take(if thorough { 8 } else { 3 }).cloned().collect();
+        let braced = ["main@{1}", "main@{u}", "HEAD@{1}", "@{1}", "side@{0}", "abcd@{0}", "@{-1}"];
+        for repo in if thorough { vec![0u8, 1] } else { vec![0u8] } {
+            for h in &hexish {
+                for b in braced.iter().take(if thorough { 7 } else { 4 }) {
+                    for op in ["..", "..."] {
+                        range.push(Case { repo, spec: format!("{h}{op}{b}") });
+                        range.push(Case { repo, spec: format!("{b}{op}{h}") });
+                    }
+                }
+            }
+            for b in braced {
+                range.push(Case { repo, spec: format!("^{b}") });
             }
         }
     }
